@@ -50,8 +50,9 @@ var (
 	SFunc = &Sort{Kind: KFunc}
 )
 
-func SeqOf(e *Sort) *Sort    { return &Sort{Kind: KSeq, Elem: e} }
-func ArrOf(e *Sort) *Sort    { return &Sort{Kind: KArr, Elem: e} }
+func SeqOf(e *Sort) *Sort { return &Sort{Kind: KSeq, Elem: e} }
+func ArrOf(e *Sort) *Sort { return &Sort{Kind: KArr, Elem: e} }
+
 // MemberAxioms: the trigger-friendly definition of the membership predicate seq.in.<S> used by the spec
 // function member(e, s); added to a script only when it mentions the predicate.
 func MemberAxioms() map[string]string {
